@@ -259,6 +259,17 @@ def check_batch_isolation(ctx, rule: str, funcs) -> None:
             if ok and not applied:
                 ok, why = False, "the batch's updates are never applied to the look-up map"
         rep.add(rule, f"{f.qname}:batch-isolation", ok, f.loc(), why)
+        # entries are grouped by their batch id as a key — the same way in both builders.  Entries recorded at
+        # construction time (rename_inputs=...) all carry batch_id None and form ONE parallel batch; grouping by
+        # adjacency or treating None as 'a step of its own' replays a constructor swap sequentially
+        keyed = any(
+            (isinstance(x, ast.Call) and isinstance(x.func, ast.Attribute) and x.func.attr == "setdefault" and x.args and isinstance(x.args[0], ast.Attribute) and x.args[0].attr == "batch_id")
+            or (isinstance(x, ast.Subscript) and isinstance(x.slice, ast.Attribute) and x.slice.attr == "batch_id")
+            for x in walk_local(f.node)
+        )
+        special = [x for x in walk_local(f.node) if isinstance(x, ast.Compare) and len(x.ops) == 1 and isinstance(x.ops[0], (ast.Is, ast.IsNot, ast.Eq, ast.NotEq)) and isinstance(x.left, ast.Attribute) and x.left.attr == "batch_id"]
+        okk = keyed and not special
+        rep.add(rule, f"{f.qname}:batches-keyed-by-id", okk, f"{f.module.rel}:{special[0].lineno if special else f.lineno}", "entries are grouped by batch id (None included) as a dictionary key" if okk else "rename entries are not grouped by their batch id as a key (adjacency grouping / a special case for batch_id None): the entries of a constructor rename_inputs={'a': 'b', 'b': 'a'} are replayed one after another and the swap collapses onto one parameter")
         # every entry of a batch records its update: the store is reached on every path through one iteration
         fcfg = ctx.cfg(f)
         for lp in inner:
